@@ -51,6 +51,8 @@ type c07State struct {
 	given map[hash.Hash]bool
 	prov  map[hash.Hash]string // how the chunk entered the store
 	proot hash.Hash
+	prevRoot     hash.Hash // persisted root before the commit accepted during the current operation
+	justAccepted bool
 	later []chunks.Chunk // children whose parents were already Put
 	trace []string
 	seq   int
@@ -226,6 +228,7 @@ func (st *c07State) commit(root hash.Hash, what string) (accepted bool) {
 		st.nRefusedFalse++
 	default:
 		st.tr("Commit(%s, %s) (%s) -> true", oracle.Short(root), oracle.Short(cur), what)
+		st.prevRoot, st.justAccepted = st.proot, true
 		st.proot = root
 		st.nAccepted++
 		return true
@@ -248,6 +251,14 @@ func (st *c07State) check(after string) {
 	}
 	st.c.Count("c07.fresh_handle_checks", 1)
 	if root != st.proot {
+		if st.justAccepted && root == st.prevRoot {
+			// the other direction: a commit acknowledged with true that a second opener does not see. This is the
+			// "acknowledged commits persist" clause of C02 observed by this monitor; it has its own key.
+			st.violation("accepted-commit-not-visible-to-fresh-handle",
+				fmt.Sprintf("after %s the writer's Commit(%s) returned true, but a fresh handle still reports the previous root %s", after, oracle.Short(st.proot), oracle.Short(root)),
+				map[string]any{"persisted_root": root.String(), "acknowledged_root": st.proot.String()})
+			return
+		}
 		st.violation("persisted-root-moved-without-accepted-commit",
 			fmt.Sprintf("after %s the persisted root is %s, but the last commit the writer saw accepted installed %s", after, oracle.Short(root), oracle.Short(st.proot)),
 			map[string]any{"persisted_root": root.String(), "expected_root": st.proot.String()})
@@ -499,6 +510,7 @@ func c07History(c *rig.Ctx, cfg string, idx int) (st *c07State, flushes int) {
 	}
 
 	for s := 0; s < steps && !st.bad; s++ {
+		st.justAccepted = false
 		present, lost := st.split()
 		op := r.Intn(100)
 		if s == 0 && startEmptyAdd {
